@@ -83,6 +83,12 @@ def _is_set_expr(node, setnames):
     return False
 
 
+STATELESS_DECORATORS = {'staticmethod', 'classmethod', 'property', 'wraps', 'functools.wraps', 'abstractmethod',
+                        'abc.abstractmethod', 'contextmanager', 'contextlib.contextmanager', 'total_ordering',
+                        'functools.total_ordering', 'dataclass', 'dataclasses.dataclass'}
+REPO_FUNCTIONS = set()
+
+
 class Finding:
     def __init__(self, kind, where, what):
         self.kind, self.where, self.what = kind, where, what
@@ -106,8 +112,77 @@ def analyse_file(path, rel):
                 module_names.add((a.asname or a.name).split('.')[0])
     findings = []
     n_sites = 0
+    # (d) decorators: a decorator is either one of the stateless standard ones, or a function defined in the analysed
+    # packages (then its own body, wrapper included, is under the frame obligations); anything else -- lru_cache,
+    # cache, cached_property, third-party memoisers -- may keep results (and shared mutable objects) between runs
+    for node in ast.walk(tree):
+        if isinstance(node, (ast.FunctionDef, ast.AsyncFunctionDef, ast.ClassDef)):
+            for dec in node.decorator_list:
+                d = dec.func if isinstance(dec, ast.Call) else dec
+                name = _dotted(d) or ast.unparse(d)
+                last = name.split('.')[-1]
+                n_sites += 1
+                if name in STATELESS_DECORATORS or last in ('setter', 'getter', 'deleter') or last in REPO_FUNCTIONS:
+                    continue
+                findings.append(Finding('module-state', f'{rel}::{node.name}:{node.lineno}',
+                                        f'decorator {name} may keep state between calls'))
+    # closure state: names bound in an enclosing function and mutated by a nested one persist between calls of the
+    # nested function (hand-written memoisation)
+    enclosing_locals = {}
+
+    def _locals_of(f):
+        loc = {a.arg for a in f.args.args + f.args.kwonlyargs + f.args.posonlyargs}
+        for n in ast.walk(f):
+            if isinstance(n, ast.Name) and isinstance(n.ctx, ast.Store):
+                loc.add(n.id)
+        return loc
+
+    def _escapes(name, outer_fn):
+        called = set()
+        for n in ast.walk(outer_fn):
+            if isinstance(n, ast.Call) and isinstance(n.func, ast.Name) and n.func.id == name:
+                called.add(id(n.func))
+        return any(isinstance(n, ast.Name) and n.id == name and isinstance(n.ctx, ast.Load) and id(n) not in called
+                   for n in ast.walk(outer_fn))
+
+    def _nest(f, outer, enclosing_fn=None):
+        if isinstance(f, (ast.FunctionDef, ast.AsyncFunctionDef)):
+            enclosing_fn = f
+        for ch in ast.iter_child_nodes(f):
+            if isinstance(ch, (ast.FunctionDef, ast.AsyncFunctionDef, ast.Lambda)):
+                if not isinstance(ch, ast.Lambda):
+                    # only a nested function that escapes (used other than by being called directly: returned, stored,
+                    # passed on) can carry its closure from one call of the enclosing function to the next
+                    enclosing_locals[ch] = set(outer) if _escapes(ch.name, enclosing_fn) else set()
+                    _nest(ch, outer | _own_locals(ch), enclosing_fn)
+                else:
+                    _nest(ch, outer, enclosing_fn)
+            else:
+                _nest(ch, outer, enclosing_fn)
+
+    def _own_locals(f):
+        loc = {a.arg for a in f.args.args + f.args.kwonlyargs + f.args.posonlyargs}
+        stack = list(f.body)
+        while stack:
+            n = stack.pop()
+            if isinstance(n, (ast.FunctionDef, ast.AsyncFunctionDef, ast.ClassDef)):
+                loc.add(n.name)
+                continue
+            if isinstance(n, ast.Name) and isinstance(n.ctx, ast.Store):
+                loc.add(n.id)
+            stack.extend(ast.iter_child_nodes(n))
+        return loc
+
+    for top in tree.body:
+        if isinstance(top, (ast.FunctionDef, ast.AsyncFunctionDef)):
+            _nest(top, _own_locals(top))
+        elif isinstance(top, ast.ClassDef):
+            for m in top.body:
+                if isinstance(m, (ast.FunctionDef, ast.AsyncFunctionDef)):
+                    _nest(m, _own_locals(m))
     for fn in [n for n in ast.walk(tree) if isinstance(n, (ast.FunctionDef, ast.AsyncFunctionDef))]:
         fname = fn.name
+        closure_names = enclosing_locals.get(fn, set())
         where = lambda node: f'{rel}::{fname}:{getattr(node, "lineno", 0)}'
         local = {a.arg for a in fn.args.args + fn.args.kwonlyargs + fn.args.posonlyargs}
         if fn.args.vararg:
@@ -163,6 +238,7 @@ def analyse_file(path, rel):
                         for n in ast.walk(it.optional_vars):
                             if isinstance(n, ast.Name):
                                 local.add(n.id)
+        own_local = _own_locals(fn)
         parents = {}
         for node in ast.walk(fn):
             for ch in ast.iter_child_nodes(node):
@@ -195,6 +271,9 @@ def analyse_file(path, rel):
                         if base.id in defaults_mutable:
                             n_sites += 1
                             findings.append(Finding('module-state', where(node), f'store through default argument {base.id}'))
+                        if base.id in closure_names and base.id not in own_local:
+                            n_sites += 1
+                            findings.append(Finding('module-state', where(node), f'store through closure variable {base.id}'))
             if isinstance(node, ast.Call) and isinstance(node.func, ast.Attribute) and node.func.attr in MUTATORS:
                 base = node.func.value
                 while isinstance(base, (ast.Attribute, ast.Subscript)):
@@ -203,6 +282,9 @@ def analyse_file(path, rel):
                                                    or base.id in defaults_mutable):
                     n_sites += 1
                     findings.append(Finding('module-state', where(node), f'{base.id}.{node.func.attr}() on module-level / default object'))
+                if isinstance(base, ast.Name) and base.id in closure_names and base.id not in own_local:
+                    n_sites += 1
+                    findings.append(Finding('module-state', where(node), f'{base.id}.{node.func.attr}() on a closure variable'))
             # (b) nondeterminism sources
             if isinstance(node, ast.Call):
                 f = _dotted(node.func)
@@ -277,6 +359,11 @@ def analyse(roots):
                       if fn.endswith('.py') and not fn.startswith('test') and fn != 'conftest.py']
     SUMMARY['returns_set'].clear()
     SUMMARY['returns_dict_of_sets'].clear()
+    REPO_FUNCTIONS.clear()
+    for path in paths:
+        for n in ast.walk(ast.parse(open(path).read())):
+            if isinstance(n, (ast.FunctionDef, ast.AsyncFunctionDef)):
+                REPO_FUNCTIONS.add(n.name)
     _summaries(paths)
     for root in roots:
         base = os.path.dirname(root)
